@@ -1179,6 +1179,19 @@ def prefix_family(seed, maxlen=3):
     return out
 
 
+def digit_family(seed, maxlen=2):
+    """a digit is a short name like any other (`-1 FILE`, `-v1 FILE`), for arguments and for flags"""
+    out = []
+    for i in range(6):
+        vt = ["str", "int", "os"][i % 3]
+        a = ar("a0", ["one", "opt", "many"][i % 3], vt, "-1", "--mate1")
+        named = [a] if i % 2 == 0 else [sw("f1", "-v"), a, sw("f2", "-2")]
+        tail = postail(pos("p0", "many" if i % 4 == 1 else "opt")) if i % 2 else NOTAIL
+        out.append(mkdef(f"dg{seed}_{i}", level(named, tail), maxlen=maxlen, extras=(), spells=("sep", "eq", "glued"),
+                         words=("w", "5"), eqvals=("1", "x"), clusters=bool(i % 2)))
+    return out
+
+
 def group_family(seed, maxlen=4, budget=8000):
     """optional / repeated / plain groups of two items (a choice with a single branch): deterministic coverage"""
     out = []
